@@ -12,6 +12,8 @@ using namespace rs;
 
 namespace {
 
+bool hasKind(const Expr& e, TID id) { if (e.id == id) return true; for (auto& k : e.kids) if (hasKind(*k, id)) return true; return false; }
+
 #define CHECK(cond, oracle, msg) do { if (!(cond)) return pbt::fail(oracle, msg); } while (0)
 
 bool asciiSafe(const Expr& e, std::set<std::string>& names) {
@@ -133,6 +135,13 @@ Verdict evalWith(Ctx& c, EvalMode mode) {
   if (doAscii) renderings.push_back({"ascii", tAscii, rl::Syntax::ASCII, false});
   if (hasLazy) renderings.push_back({"math-lazy", tPlain, rl::Syntax::MATH, true});
 
+  // power sets can make one evaluation take minutes (the library materialises ℬ(S)∪T): such an expression is first run in a
+  // child under a CPU limit and skipped (counted) when it does not finish - a time budget is no oracle
+  if (hasKind(*e, TID::BOOLEAN)) {
+    const auto probe = pbt::inChild([&]() -> Verdict { try { (void)runLib(g.G, tPlain, rl::Syntax::MATH, hasLazy); } catch (const Budget&) {} return pbt::pass(); }, 15);
+    if (probe.status == pbt::ChildResult::TIMEOUT || probe.status == pbt::ChildResult::STARVED) { c.count("inconclusive:evaluation-exceeds-15s-cpu"); return pbt::discard("slow-evaluation"); }
+    if (probe.status == pbt::ChildResult::CRASH) return pbt::fail("crash", "evaluation of '" + tPlain + "' crashed: " + probe.crashInfo);
+  }
   bool first = true; Run base;
   for (auto& r : renderings) {
     Run got;
